@@ -2,7 +2,8 @@
 
 (1) TLC explores every history of <=K tasks (create / launch / continue / unknown type x persist x nowait x tag {None, t} x
     process class {Fin, Exc, Wait}) interleaved with turns of the event loop, resumes and checkpoints taken by the environment,
-    for every configuration (persister: none / InMemory / Pickle; loader: default / custom; constructor-argument style), and checks
+    for every configuration (persister: none / InMemory / Pickle; loader: default / custom, its aliases known to the configured
+    instance only; launcher built with / without a caller-supplied load_context; constructor-argument style), and checks
     the operational mirror of ProcessLauncher against the declarative properties CreateOK, LaunchOK, ContinueOK, NowaitReply,
     WaitingReply, RejectOK, LoaderUsed, ...;
 (2) state graphs are dumped and EVERY maximal behaviour is replayed on the real ProcessLauncher on the single-stepping loop
@@ -41,7 +42,7 @@ ASSUMPTIONS = [
     'process classes: Fin (emits outputs and finishes), Exc (raises), Wait (waits for resume(), then finishes); constructor arguments '
     'inputs={v: 7} positionally / by keyword / absent / invalid (one style per history)',
     'configurations are consistent: the InMemoryPersister gets the launcher\'s loader, the sender identifies classes with the same '
-    'loader, the custom loader extends DefaultObjectLoader (PicklePersister has no loader parameter: its bundles carry default names)',
+    'loader, the custom loader extends DefaultObjectLoader and keeps its aliases in a per-instance table (PicklePersister has no loader parameter: its bundles carry default names)',
     'the broker is replaced by an in-process communicator with kiwipy.rmq conventions (delivery future -> outcome future, a '
     'TaskRejected anywhere in the chain of futures passes the task on; nobody left = TaskRejected outcome); no_reply is not explored',
     'a turn of the loop is atomic (everything ready runs); resume() is followed by a turn of the loop; which exception class a missing '
@@ -57,8 +58,9 @@ def fixes():
     return [f for f in re.split(r'[,\s]+', env.strip()) if f]
 
 
-def configs(bases, args):
-    return [dict(b, arg=a) for b in bases for a in args]
+def configs(bases, args, ctxs=(False,)):
+    """ctxs: values of 'the launcher is constructed with a caller-supplied load_context'."""
+    return [dict(b, arg=a, ctx=c) for b in bases for a in args for c in ctxs]
 
 
 def mc(name, cfgs, k, saves, classes, fx, known, check=True):
@@ -301,24 +303,31 @@ def run(tier, seed):
     known = findings.deviations(PID)
     procs = min(16, os.cpu_count() or 1)
     rng = random.Random(seed)
-    full = configs(BASES, ARGS)
+    both = (False, True)
+    full = configs(BASES, ARGS, both)
+    coin = lambda: (rng.random() < 0.5,)                                   # noqa: E731
+    none_d, none_c, mem_d, mem_c, pic_d, pic_c = BASES
     if tier == 'quick':
         mcs = [dict(name='MC_C17_K2', cfgs=full, k=2, saves=1, classes=ALL_CLASSES)]
-        # replay: every base configuration with keyword arguments, invalid arguments and one other argument style on one seeded configuration with a persister each
-        sel = configs(BASES, ['kw'])
-        for a in (rng.choice(['none', 'pos']), 'bad'):
-            sel += configs(rng.sample(BASES[2:], 1), [a])
-        sel = [dict(t) for t in sorted({tuple(sorted(c.items())) for c in sel})]
+        # replay: no persister (both loaders), custom loader on both persisters WITH a caller-supplied load context (in-memory:
+        # keyword arguments, also without the context; pickle: a seeded argument style), default loader on one seeded persister,
+        # invalid arguments on one seeded configuration
+        sel = (configs([none_d], ['kw'], coin()) + configs([none_c], ['kw'], coin()) + configs([mem_c], ['kw'], both)
+               + configs([pic_c], [rng.choice(['kw', 'none', 'pos'])], (True,)) + configs([rng.choice([mem_d, pic_d])], ['kw'], coin())
+               + configs(rng.sample(BASES[2:], 1), ['bad'], coin()))
         rps = [dict(name='MC_C17_dump_K2', cfgs=sel, k=2, saves=1, classes=ALL_CLASSES)]
     else:
-        mcs = [dict(name='MC_C17_K3', cfgs=full, k=3, saves=1, classes=ALL_CLASSES),
+        # K=3: the load-context dimension in full for keyword arguments, seeded for the other argument styles
+        k3 = configs(BASES, ['kw'], both) + [c for a in ('none', 'pos', 'bad') for b in BASES for c in configs([b], [a], coin())]
+        mcs = [dict(name='MC_C17_K3', cfgs=k3, k=3, saves=1, classes=ALL_CLASSES),
                dict(name='MC_C17_K2_S2', cfgs=full, k=2, saves=2, classes=ALL_CLASSES)]
-        rps = [dict(name='MC_C17_dump_K2', cfgs=full, k=2, saves=1, classes=ALL_CLASSES),
+        k2 = configs([none_c, mem_c, pic_c], ARGS, both) + [c for b in (none_d, mem_d, pic_d) for a in ARGS for c in configs([b], [a], coin())]
+        rps = [dict(name='MC_C17_dump_K2', cfgs=k2, k=2, saves=1, classes=ALL_CLASSES),
                # three tasks: one seeded configuration with a persister per class family, every transition of the graph covered
-               dict(name='MC_C17_dump_K3_Wait', cfgs=configs(rng.sample(BASES[2:], 1), ['kw']) + configs(BASES[:1], ['bad']), k=3, saves=1,
-                    classes=['Wait'], cover=True),
-               dict(name='MC_C17_dump_K3_FinExc', cfgs=configs(rng.sample(BASES[2:], 1), ['pos']), k=3, saves=1, classes=['Fin', 'Exc'],
-                    cover=True)]
+               dict(name='MC_C17_dump_K3_Wait', cfgs=configs(rng.sample(BASES[2:], 1), ['kw'], coin()) + configs(BASES[:1], ['bad']),
+                    k=3, saves=1, classes=['Wait'], cover=True),
+               dict(name='MC_C17_dump_K3_FinExc', cfgs=configs(rng.sample(BASES[2:], 1), ['pos'], coin()), k=3, saves=1,
+                    classes=['Fin', 'Exc'], cover=True)]
 
     violations = 0
     states = transitions = 0
